@@ -830,6 +830,35 @@ impl Observe for DI8 {
     }
 }
 
+#[derive(FromVariant)]
+#[darling(attributes(a), forward_attrs)]
+pub struct VR4 {
+    ident: syn::Ident,
+    discriminant: Option<syn::Expr>,
+    attrs: Vec<syn::Attribute>,
+    p: Option<PM<4901>>,
+}
+impl Observe for VR4 {
+    fn observe(&self) -> V {
+        let _ = &self.discriminant;
+        V::Struct("VR4".into(), vec![("ident".into(), ident_val(&self.ident)), ("attrs".into(), self.attrs.observe()), ("p".into(), self.p.observe())])
+    }
+}
+
+#[derive(FromTypeParam)]
+#[darling(attributes(a), forward_attrs(doc, keep))]
+pub struct TR3 {
+    ident: syn::Ident,
+    #[darling(with = aw::<4950>)]
+    attrs: AttrProbe,
+    q: PM<4951>,
+}
+impl Observe for TR3 {
+    fn observe(&self) -> V {
+        V::Struct("TR3".into(), vec![("ident".into(), ident_val(&self.ident)), ("attrs".into(), self.attrs.observe()), ("q".into(), self.q.observe())])
+    }
+}
+
 pub enum ElemInput<'a> {
     DeriveInput(&'a syn::DeriveInput),
     Field(&'a syn::Field),
@@ -850,6 +879,8 @@ pub fn run_elem_receiver(name: &str, input: &ElemInput) -> Option<Result<V, darl
         ("FR4", ElemInput::Field(f)) => ob(FR4::from_field(f)),
         ("FR5", ElemInput::Field(f)) => ob(FR5::from_field(f)),
         ("VR3", ElemInput::Variant(v)) => ob(VR3::from_variant(v)),
+        ("VR4", ElemInput::Variant(v)) => ob(VR4::from_variant(v)),
+        ("TR3", ElemInput::TypeParam(t)) => ob(TR3::from_type_param(t)),
         ("TR2", ElemInput::TypeParam(t)) => ob(TR2::from_type_param(t)),
         ("DI8", ElemInput::DeriveInput(d)) => ob(DI8::from_derive_input(d)),
         ("DI7", ElemInput::DeriveInput(d)) => ob(DI7::from_derive_input(d)),
